@@ -11,10 +11,10 @@ pub fn prop() -> Prop {
     Prop {
         id: "C12",
         level: "model_checking",
-        rule: "observer bodies H (13: the bound name next to ., ^., ^^., ^^^., another variable, another macro, a selected name) x enclosing contexts X (12: top level, map, filter, fold, sort_by, map_values, pipe stage, pipe-then-map, flat_map, pipes with a stage that returns its input unchanged) x binding forms F (18: set, define, --set variable, --set macro, nested both ways, shadowing an inner/outer/--set binding, unused names, a macro whose body reads a variable bound outside/inside, a macro reading ^) x placement (binding outside X / inside the functional argument) x bound values (4) x position 1..4 among --select options x with/without --split-by x 2 inputs; plus the same expression repeated in four --select positions; plus 3..130 variables and macros in scope at once (nested set/define, or --set given that many times); non-trivial = the body reads something the binding had to carry over (^, another binding, a selected name) or sits after --split-by / other selections; distinct by construction",
+        rule: "observer bodies H (13: the bound name next to ., ^., ^^., ^^^., another variable, another macro, a selected name) x enclosing contexts X (12: top level, map, filter, fold, sort_by, map_values, pipe stage, pipe-then-map, flat_map, pipes with a stage that returns its input unchanged) x binding forms F (18: set, define, --set variable, --set macro, nested both ways, shadowing an inner/outer/--set binding, unused names, a macro whose body reads a variable bound outside/inside, a macro reading ^) x placement (binding outside X / inside the functional argument) x bound values (4) x position 1..4 among --select options x with/without --split-by x 2 inputs; plus the same expression repeated in four --select positions; plus 3..130 variables and macros in scope at once (nested set/define, or --set given that many times); 10..1100 expansions of one macro in one record, most yielding nothing; shadowing where the inner and the outer value are numerically close (2^64-1 / 2^64, -2^63 / -2^63-1, 2^53+1 / 2^53, 0 / -0.0); non-trivial = the body reads something the binding had to carry over (^, another binding, a selected name) or sits after --split-by / other selections; distinct by construction",
         explanation: "each case is one run with two selections: the bound form and the form obtained by substituting the bound value / macro body by hand; both must have the same value (differential, no model needed) and both are also compared with the reference evaluator",
         assumptions: COMMON_ASSUMPTIONS.to_vec(),
-        guards: vec!["many-bindings-in-scope", "parent-read-under-a-binding", "other-variable-survives", "other-macro-survives", "selected-name-survives", "after-split", "shadowing", "macro-body-reads-outer-variable", "pipe-stage-parent", "later-select-sees-same-parents"],
+        guards: vec!["many-macro-expansions-in-one-record", "shadowing-with-numerically-close-values", "many-bindings-in-scope", "parent-read-under-a-binding", "other-variable-survives", "other-macro-survives", "selected-name-survives", "after-split", "shadowing", "macro-body-reads-outer-variable", "pipe-stage-parent", "later-select-sees-same-parents"],
         budget_s: (100, 1800),
         single_worker: false,
         run,
@@ -355,4 +355,75 @@ fn run(ctx: &mut Ctx) {
         }
     }
     ctx.level_done("many-bindings-in-scope(3..130)");
+    // many expansions of one macro inside ONE record, most of them yielding nothing (bookkeeping that is only
+    // restored on the success path shows after a number of empty results)
+    for n in [10usize, 63, 64, 65, 130, 300, 1100] {
+        if !ctx.mine() {
+            continue;
+        }
+        ctx.guard("many-macro-expansions-in-one-record");
+        let items: Vec<String> = (0..n).map(|i| if i % 8 == 7 { format!("{{\"k\": {i}}}") } else { format!("{{\"z\": {i}}}") }).collect();
+        let input = format!("{{\"big\": [{}], \"n\": 2}}", items.join(", "));
+        for (name, args, bound, subst) in [
+            ("--set-macro", vec!["--set=@m=(+ .k ^.n)".to_string()], "(map .big @m)", "(map .big (+ .k ^.n))"),
+            ("define", vec![], "(define \"m\" (+ .k ^.n) (map .big @m))", "(map .big (+ .k ^.n))"),
+            ("--set-macro-via-@-function", vec!["--set=@m=(+ .k ^.n)".to_string()], "(map .big (@ \"m\"))", "(map .big (+ .k ^.n))"),
+            ("variable-in-lambda", vec![], "(map .big (set \"x\" .k (+ :x ^.n)))", "(map .big (+ .k ^.n))"),
+        ] {
+            let mut a = args.clone();
+            a.push(format!("--select={bound}=bound"));
+            a.push(format!("--select={subst}=subst"));
+            a.push(format!("--select=(len {bound})=again"));
+            let case = Case::owned(a, input.clone().into_bytes());
+            let obs = ctx.run(&case);
+            ctx.case_done();
+            ctx.trace_validated();
+            ctx.nontrivial();
+            let rows = json::parse_rows(&obs.stdout, b"\n").unwrap_or_default();
+            let ok = obs.res.is_ok() && rows.len() == 1 && rows[0].get("bound").is_some() && rows[0].get("bound") == rows[0].get("subst") && rows[0].get("again") == Some(&V::int((n / 8) as i128));
+            if !ok {
+                ctx.violation("bound-form-differs-from-hand-substituted-form", &format!("{name}: {n} expansions in one record, 7 of 8 yielding nothing"), &[case.clone()], format!("bound = subst = {} values", n / 8), crate::drive::trunc(&obs.brief(), 300));
+            }
+        }
+    }
+    ctx.level_done("many-macro-expansions-in-one-record(10..1100)");
+    // shadowing with values that are close as numbers: the inner binding wins however alike the two values are
+    let close: [(&str, &str); 7] = [
+        ("18446744073709551615", "18446744073709551616"),
+        ("18446744073709551615", "1.8446744073709552e19"),
+        ("-9223372036854775808", "-9223372036854775809"),
+        ("9007199254740993", "9007199254740992"),
+        ("9007199254740993", "9007199254740992.0"),
+        ("0", "-0.0"),
+        ("[18446744073709551615]", "[1.8446744073709552e19]"),
+    ];
+    for (outer, inner) in close {
+        if !ctx.mine() {
+            continue;
+        }
+        ctx.guard("shadowing-with-numerically-close-values");
+        for (o, i) in [(outer, inner), (inner, outer)] {
+            for (name, args, e) in [
+                ("set-in-set", vec![], format!("(set \"x\" {o} (set \"x\" {i} (push [] :x)))")),
+                ("set-over---set", vec![format!("--set=x={o}")], format!("(set \"x\" {i} (push [] :x))")),
+                ("set-in-map", vec![], format!("(set \"x\" {o} (map [1] (set \"x\" {i} :x)))")),
+                ("define-in-define", vec![], format!("(define \"m\" {o} (define \"m\" {i} (push [] @m)))")),
+            ] {
+                let mut a = args.clone();
+                a.push(format!("--select={e}=bound"));
+                a.push(format!("--select=(push [] {i})=subst"));
+                let case = Case::owned(a, b"null".to_vec());
+                let obs = ctx.run(&case);
+                ctx.case_done();
+                ctx.trace_validated();
+                ctx.nontrivial();
+                let rows = json::parse_rows(&obs.stdout, b"\n").unwrap_or_default();
+                let ok = obs.res.is_ok() && rows.len() == 1 && rows[0].get("bound").is_some() && rows[0].get("bound") == rows[0].get("subst");
+                if !ok {
+                    ctx.violation("bound-form-differs-from-hand-substituted-form", &format!("{name}: inner binding numerically close to the outer one"), &[case.clone()], format!("[{i}]"), crate::drive::trunc(&obs.brief(), 300));
+                }
+            }
+        }
+    }
+    ctx.level_done("shadowing-with-numerically-close-values");
 }
